@@ -19,7 +19,7 @@ import (
 type rng struct{ s uint64 }
 
 func newRng(seed uint64, stream uint64) *rng { return &rng{s: simrt.Mix(seed, stream)} }
-func (r *rng) next() uint64                   { r.s = simrt.Mix(r.s, 0x2545f4914f6cdd1d); return r.s }
+func (r *rng) next() uint64                  { r.s = simrt.Mix(r.s, 0x2545f4914f6cdd1d); return r.s }
 func (r *rng) intn(n int) int {
 	if n <= 1 {
 		return 0
@@ -153,7 +153,17 @@ func mslDefault() proto.MSLOpts {
 
 func mslPreset(r *rng, p *program) proto.MSLOpts {
 	o := mslDefault()
-	switch r.intn(12) {
+	switch r.intn(13) {
+	case 12:
+		if p != nil && len(p.info.Bindings) > 0 {
+			o.FakeMissingBindings = false
+			for i, b := range p.info.Bindings {
+				o.PerEP = append(o.PerEP, proto.BindingTarget{Binding: b, Target: uint32(i % 28)})
+			}
+			for _, ep := range p.info.EntryPoints {
+				o.EPNames = append(o.EPNames, ep.Name)
+			}
+		}
 	case 0, 1, 2:
 	case 3:
 		o.Version = pick(r, []proto.Version{{Major: 1, Minor: 2}, {Major: 2, Minor: 0}, {Major: 2, Minor: 3}, {Major: 2, Minor: 4}})
@@ -222,7 +232,12 @@ func glslPreset(r *rng, p *program) proto.GLSLOpts {
 
 func hlslPreset(r *rng, p *program) proto.HLSLOpts {
 	o := proto.HLSLOpts{ShaderModel: 1, FakeMissingBindings: true, ZeroInitWorkgroup: true, RestrictIndexing: true, ForceLoopBounding: true}
-	switch r.intn(10) {
+	switch r.intn(12) {
+	case 10:
+		o.SamplerBufferMap = true
+	case 11:
+		o.DynOffsets = true
+		o.SamplerBufferMap = true
 	case 0, 1, 2:
 	case 3:
 		o.ShaderModel = 0
@@ -250,7 +265,10 @@ func hlslPreset(r *rng, p *program) proto.HLSLOpts {
 
 func dxilPreset(r *rng, p *program) proto.DXILOpts {
 	o := proto.DXILOpts{}
-	switch r.intn(8) {
+	switch r.intn(9) {
+	case 8:
+		o.SamplerBufferMap = true
+		o.SamplerHeap = true
 	case 0, 1, 2:
 	case 3:
 		o.SMMinor = uint32(1 + r.intn(6))
@@ -421,9 +439,17 @@ func (b *builder) backendOp(kind string, mod int, after ...proto.Ref) proto.Op {
 		op.Spirv = &o
 	case proto.OpMSL:
 		o := mslPreset(b.r, p)
+		if p != nil && len(p.info.Overrides) > 0 && b.r.chance(0.35) {
+			o.Consts, _ = constsFor(b.r, p)
+			o.HasConsts = true
+		}
 		op.MSL = &o
 	case proto.OpGLSL:
 		o := glslPreset(b.r, p)
+		if p != nil && len(p.info.Overrides) > 0 && b.r.chance(0.35) {
+			o.Consts, _ = constsFor(b.r, p)
+			o.HasConsts = true
+		}
 		op.GLSL = &o
 	case proto.OpHLSL:
 		o := hlslPreset(b.r, p)
